@@ -1153,6 +1153,7 @@ func c20GenConc(r *vrng, id int) *c20Case {
 //   targets of the cluster of x|b:    (x, b) -- the pair whose encoder input y is --, (y, b') for
 //                                     the named backends b', every derivation of y with a
 //                                     nil | compat backend (with "b1" when it contains '|')
+//   (quick tier: the clusters of x|b at one kind per family and backend, the kinds taking turns)
 //   all of them inside wf_target (checked again by the judge, mode 3), pairwise different
 //   subjects of the property.  Sessions: the cluster of x only (a session subject has no backend).
 //
@@ -1277,11 +1278,17 @@ func c20CrossCase(id int, gen string, ts []c20Target) *c20Case {
 	return c
 }
 
+// quick tier: the cluster of x for every family and kind; the clusters of x|b (collisions across
+// backends) for every family and backend at one kind each, the kinds taking turns over the
+// families (every kind runs six of them).  thorough: all of them, and the whole families.
 func c20DirectedPool(id int, families bool) []*c20Case {
 	var cs []*c20Case
-	for _, base := range c20PoolBases {
+	for fi, base := range c20PoolBases {
 		for kind := 0; kind < 4; kind++ {
-			for _, cl := range c20PoolClusters(base, kind) {
+			for ci, cl := range c20PoolClusters(base, kind) {
+				if ci > 0 && !families && (fi+ci-1)%3 != kind {
+					continue
+				}
 				cs = append(cs, c20CrossCase(id, "pool-cluster", cl))
 				id++
 			}
@@ -1311,7 +1318,7 @@ func c20PoolEverything() []c20Target {
 // publications in random order, some listeners leaving and coming back in between
 func c20GenPoolMixed(r *vrng, id int) *c20Case {
 	all := c20PoolEverything()
-	n := 8 + r.intn(9)
+	n := 6 + r.intn(9)
 	var ts []c20Target
 	seen := map[string]bool{}
 	// half of the table from one family and kind (where collisions are plausible), the rest from anywhere
@@ -1484,7 +1491,7 @@ func TestVerifC20(t *testing.T) {
 		}
 		// the collision pool (ids from 7000000: the streams above stay what they were)
 		cases = append(cases, c20DirectedPool(7000000, env.thorough())...)
-		nMixed := 36
+		nMixed := 24
 		if env.thorough() {
 			nMixed = 600
 		}
@@ -1507,7 +1514,7 @@ func TestVerifC20(t *testing.T) {
 		if c.Gen == "pool-family" {
 			sink.flush()
 		} else if c.Gen == "pool-cluster" {
-			if poolTargets += len(c.Targets); poolTargets >= 90 {
+			if poolTargets += len(c.Targets); poolTargets >= 200 {
 				sink.flush()
 				poolTargets = 0
 			}
